@@ -31,6 +31,18 @@ pub fn scoring<A: Alphabet>(rows: &[Vec<f32>]) -> ScoringMatrix<A> {
     ScoringMatrix::new(Background::uniform(), data)
 }
 
+/// The same matrix built with `extra` more rows (large finite weights) and cut down with `DenseMatrix::resize`.
+pub fn scoring_trimmed<A: Alphabet>(rows: &[Vec<f32>], extra: usize) -> ScoringMatrix<A> {
+    let k = A::K::USIZE;
+    let mut all: Vec<Vec<f32>> = rows.to_vec();
+    for e in 0..extra {
+        all.push((0..k).map(|j| 1000.0 + (e * k + j) as f32).collect());
+    }
+    let mut data = DenseMatrix::<f32, A::K>::from_rows(all.iter().map(|r| r.as_slice()).collect::<Vec<_>>());
+    data.resize(rows.len());
+    ScoringMatrix::new(Background::uniform(), data)
+}
+
 /// Reference: rows of the striped layout.
 pub fn stripe_rows(len: usize, c: usize) -> usize {
     (len + c - 1) / c
